@@ -72,8 +72,18 @@ def lab_history(lab, cfg, events=None):
             raise
         except BaseException:  # noqa
             pass
-        if events is not None:
-            del events[:]
+    elif cfg.history == 'aborted-run_tasks':
+        # (only for Labs with continue_on_failure=False) a call with tasks of limited types that a failure
+        # aborts while other tasks of those types are still in flight
+        U.WORLD.reset(epoch=7, faults=[900])
+        try:
+            lab.run_tasks([U.TK(label=901), U.TK(label=902), U.TM(label=903), U.TM(label=900)], disable_progress=True, disable_top=True)     # never-cached limited types: nothing is stored
+        except (Spin, HarnessError):
+            raise
+        except BaseException:  # noqa
+            pass
+    if cfg.history and events is not None:
+        del events[:]
 
 
 def call_run(lab, req, cfg, **kw):
